@@ -155,6 +155,35 @@ fn main() {
             }
             0
         }
+        Some("miri-sample") => xtv::checks::c17::miri_sample(args.get(2).and_then(|s| s.parse().ok()).unwrap_or(0), args.get(3).and_then(|s| s.parse().ok()).unwrap_or(1)),
+        Some("leaktest") => {
+            // semantics and cost of the recoverable leak check
+            let t = std::time::Instant::now();
+            println!("clean: {} ({:?})", xtv::checks::c17::leak_check(), t.elapsed());
+            {
+                let b: Box<[u8; 1234]> = Box::new([7u8; 1234]);
+                let p = Box::into_raw(b);
+                std::hint::black_box(p);
+            }
+            let filler: Vec<Vec<u8>> = (0..100000).map(|i| vec![i as u8; 64]).collect();
+            let t = std::time::Instant::now();
+            println!("after leak: {} ({:?})", xtv::checks::c17::leak_check(), t.elapsed());
+            let t = std::time::Instant::now();
+            println!("again: {} ({:?})", xtv::checks::c17::leak_check(), t.elapsed());
+            {
+                let b: Box<[u8; 4321]> = Box::new([7u8; 4321]);
+                let p = Box::into_raw(b);
+                std::hint::black_box(p);
+            }
+            println!("second leak: {}", xtv::checks::c17::leak_check());
+            println!("again: {}", xtv::checks::c17::leak_check());
+            drop(filler);
+            0
+        }
+        Some("c18probe") => {
+            xtv::checks::c18::probe();
+            0
+        }
         Some("list") => {
             for c in &checks {
                 println!("{}", c.id());
